@@ -6,6 +6,7 @@ import (
 	"fmt"
 	"io"
 	"reflect"
+	"sort"
 	"strconv"
 	"strings"
 	"time"
@@ -478,4 +479,52 @@ func extraStrReal(ctx *core.Ctx) (int, string, []core.ExtraFailure) {
 	}
 	evals += 2
 	return evals, fmt.Sprintf("%d Generate calls over math/rand sources (incl. SetStrGeneratorCharSet and LockRandSource.Seed)", evals), fails
+}
+
+// extraCountCopy observes what the model says about VALUE COPIES of CountGenerator
+// (c20_count_copy_aliasing; outside the property, the judgement made explicit): b := *a
+// shares the rules array; AddRule through a allocates when len == cap (b keeps its rules)
+// and otherwise sorts the shared array in place (b shows the first len of the sorted
+// len+1 rules). cap is read through reflection; a disagreement is a model/code mismatch.
+func extraCountCopy(ctx *core.Ctx) (int, string, []core.ExtraFailure) {
+	var fails []core.ExtraFailure
+	evals, inPlace, alloc := 0, 0, 0
+	type rl struct{ p, pe, i, im int }
+	read := func(g *randz.CountGenerator) ([]rl, int) {
+		rs := reflect.ValueOf(g).Elem().FieldByName("rules")
+		out := make([]rl, rs.Len())
+		for i := range out {
+			e := rs.Index(i)
+			out[i] = rl{int(field(e, "period")), int(field(e, "periodEndMaxIncr")), int(field(e, "interval")), int(field(e, "intervalMaxIncr"))}
+		}
+		return out, rs.Cap()
+	}
+	for k := 1; k <= 17; k++ {
+		for _, where := range []int{0, 1, 2} { // new period below all / in the middle / above all
+			a := &randz.CountGenerator{}
+			for j := 0; j < k; j++ {
+				a.AddRule(10*(j+1), j+1, 1, 2)
+			}
+			view, capBefore := read(a)
+			b := *a // value copy: shares the array
+			np := []int{5, 10*((k+1)/2) + 5, 10*k + 5}[where]
+			a.AddRule(np, 99, 1, 2)
+			got, _ := read(&b)
+			evals++
+			want := view
+			if capBefore > len(view) {
+				inPlace++
+				all := append(append([]rl{}, view...), rl{np, 99, 1, 2})
+				sort.SliceStable(all, func(i, j int) bool { return all[i].p < all[j].p })
+				want = all[:len(view)]
+			} else {
+				alloc++
+			}
+			if fmt.Sprint(got) != fmt.Sprint(want) && len(fails) < 3 {
+				fails = append(fails, core.ExtraFailure{Failure: core.Failure{Key: "count-copy-model", Desc: fmt.Sprintf("copy of a CountGenerator with %d rules (cap %d), AddRule(period %d) through the original: the copy shows %v, the model says %v", len(view), capBefore, np, got, want)},
+					Payload: map[string]any{"rules": len(view), "cap": capBefore, "period": np}, NoInput: true})
+			}
+		}
+	}
+	return evals, fmt.Sprintf("%d value copies followed by AddRule through the original: %d wrote the shared array in place (copy shows the sorted prefix), %d allocated (copy unchanged), as c20_count_copy_aliasing says", evals, inPlace, alloc), fails
 }
